@@ -537,4 +537,106 @@ theorem init_decode_wf (hwf : initSchema.wf = true) (hp : initSchema.plain = tru
     exact ⟨by omega, hv.2⟩
   · cases h
 
+/-! ### OnionMessage -/
+
+theorem validFixed_cons {t : FieldTy} {ts : List FieldTy} {pv : List Val} (h : validFixed (t :: ts) pv = true) :
+    ∃ v vs, pv = v :: vs ∧ t.valid v = true ∧ validFixed ts vs = true := by
+  cases pv with
+  | nil => simp [validFixed] at h
+  | cons v vs => simp only [validFixed, Bool.and_eq_true] at h; exact ⟨v, vs, rfl, h.1, h.2⟩
+
+theorem validFixed_nil {pv : List Val} (h : validFixed [] pv = true) : pv = [] := by
+  cases pv with
+  | nil => rfl
+  | cons _ _ => simp [validFixed] at h
+
+theorem fixed_valid_shape {n : Nat} {c : Check} {v : Val} (h : (FieldTy.fixed n c).valid v = true) : ∃ b, v = .bytes b ∧ b.length = n := by
+  cases v <;> simp [FieldTy.valid] at h
+  exact ⟨_, rfl, h.1⟩
+
+theorem uint_valid_shape {n : Nat} {v : Val} (h : (FieldTy.uint n).valid v = true) : ∃ x, v = .nat x := by
+  cases v <;> simp [FieldTy.valid] at h
+  exact ⟨_, rfl⟩
+
+theorem packet_shape (n : Nat) (pv : List Val) (h : validFixed (packetTys n) pv = true) :
+    hopLenOf pv = n ∧ (encodeFixed (packetTys n) pv).length = onionMsgOverhead + n := by
+  simp only [packetTys, Hand.u8, Hand.point, Hand.h32] at h ⊢
+  obtain ⟨v1, r1, rfl, h1, h⟩ := validFixed_cons h
+  obtain ⟨v2, r2, rfl, h2, h⟩ := validFixed_cons h
+  obtain ⟨v3, r3, rfl, h3, h⟩ := validFixed_cons h
+  obtain ⟨v4, r4, rfl, h4, h⟩ := validFixed_cons h
+  have := validFixed_nil h
+  subst this
+  obtain ⟨x, rfl⟩ := uint_valid_shape h1
+  obtain ⟨k, rfl, hk⟩ := fixed_valid_shape h2
+  obtain ⟨hd, rfl, hh⟩ := fixed_valid_shape h3
+  obtain ⟨m, rfl, hm⟩ := fixed_valid_shape h4
+  simp [hopLenOf, encodeFixed, FieldTy.encode, beEncode_length, hk, hh, hm, onionMsgOverhead, onionPacketOverheadPinned]
+  omega
+
+theorem packetTys_ok (n : Nat) : hdrOk (packetTys n) = true := by
+  simp [hdrOk, packetTys, Hand.u8, Hand.point, Hand.h32, FieldTy.wf, FieldTy.selfDelim, FieldTy.plain, exactTy, Check.widthOk]
+
+theorem onion_wf_parts {m : OnionMsg} (h : m.wf = true) :
+    Hand.point.valid m.blinding = true ∧ validFixed (packetTys (hopLenOf m.packet)) m.packet = true ∧
+    onionMsgOverhead + hopLenOf m.packet < 2 ^ 16 := by
+  simp only [OnionMsg.wf, Bool.and_eq_true, decide_eq_true_eq] at h
+  exact ⟨h.1.1, h.1.2, h.2⟩
+
+theorem onion_roundtrip' (m : OnionMsg) (hm : m.wf = true) (rest : Bytes) :
+    decodeOnionMsg (encodeOnionMsg m ++ rest) = .ok (m, rest) := by
+  obtain ⟨h1, h2, h3⟩ := onion_wf_parts hm
+  obtain ⟨p1, _, _⟩ := hdrOk_parts (packetTys_ok (hopLenOf m.packet))
+  obtain ⟨_, hlen⟩ := packet_shape _ _ h2
+  have hpt : Hand.point.wf = true ∧ Hand.point.selfDelim = true := by decide
+  cases m with
+  | mk bp pv =>
+  simp only at h1 h2 h3 hlen p1
+  simp only [decodeOnionMsg, encodeOnionMsg, List.append_assoc, field_roundtrip Hand.point bp _ hpt.1 h1 (.inl hpt.2), readUint_encode,
+    Nat.mod_eq_of_lt (show onionMsgOverhead + hopLenOf pv < 256 ^ 2 by omega)]
+  have e1 : (encodeFixed (packetTys (hopLenOf pv)) pv ++ rest).take (onionMsgOverhead + hopLenOf pv) = encodeFixed (packetTys (hopLenOf pv)) pv :=
+    List.take_left' hlen
+  have e2 : (encodeFixed (packetTys (hopLenOf pv)) pv ++ rest).drop (onionMsgOverhead + hopLenOf pv) = rest := List.drop_left' hlen
+  have e3 : onionMsgOverhead + hopLenOf pv - onionMsgOverhead = hopLenOf pv := by omega
+  have := decodeFixed_roundtrip (packetTys (hopLenOf pv)) pv [] p1 h2
+  rw [List.append_nil] at this
+  simp only [e1, e2, e3, this]
+
+theorem onion_exact' (b : Bytes) (m : OnionMsg) (rest : Bytes) (h : decodeOnionMsg b = .ok (m, rest)) :
+    b = encodeOnionMsg m ++ rest ∧ m.wf = true := by
+  simp only [decodeOnionMsg] at h
+  split at h
+  · cases h
+  · rename_i bp b1 hbp
+    have hpt : Hand.point.wf = true ∧ Hand.point.plain = true ∧ exactTy Hand.point = true := by decide
+    have e0 := field_decode_exact Hand.point b bp b1 hpt.2.2 hbp
+    have v0 := (field_decode_spec Hand.point b bp b1 hpt.1 hpt.2.1 hbp).1
+    split at h
+    · cases h
+    · rename_i len b2 hlen
+      obtain ⟨e1, hl16⟩ := readUint_ok hlen
+      split at h
+      · cases h
+      · rename_i pv r' hpk
+        cases h
+        obtain ⟨_, p2, p3⟩ := hdrOk_parts (packetTys_ok (len - onionMsgOverhead))
+        have e2 := decodeFixed_exact _ _ _ _ p3 hpk
+        have v2 := decodeFixed_valid _ _ _ _ p2 hpk
+        obtain ⟨hh, hpl⟩ := packet_shape _ _ v2
+        have htl : (b2.take len).length ≤ len := by simp [List.length_take]; omega
+        have hsum : (b2.take len).length = onionMsgOverhead + (len - onionMsgOverhead) + r'.length := by
+          rw [e2, List.length_append, hpl]
+        have hge : onionMsgOverhead ≤ len := by simp only [onionMsgOverhead, onionPacketOverheadPinned] at hsum ⊢; omega
+        have hr : r' = [] := by
+          apply List.eq_nil_of_length_eq_zero; simp only [onionMsgOverhead, onionPacketOverheadPinned] at hsum hge; omega
+        subst hr
+        rw [List.append_nil] at e2
+        have hb2 : len ≤ b2.length := by
+          simp only [List.length_take, onionMsgOverhead, onionPacketOverheadPinned] at hsum hge; omega
+        refine ⟨?_, ?_⟩
+        · simp only [encodeOnionMsg, hh, List.append_assoc]
+          rw [show onionMsgOverhead + (len - onionMsgOverhead) = len by omega, ← e2, List.take_append_drop, e0, e1]
+        · simp only [OnionMsg.wf, hh, v0, v2, Bool.true_and, decide_eq_true_eq]
+          omega
+
 end Ldk.Codec.Custom
